@@ -1117,7 +1117,10 @@ func (m *Manager) persistSubscriber(s *subscriber.Type) {
 		m.log.Error("Couldn't persist subscriptions", zap.String("ClientID", s.ID), zap.Error(err))
 	}
 
-	s.Offline(true)
+	// the subscriber stays subscribed, in persist mode: the routing queue may still hold messages that
+	// have been acknowledged to their publishers, and the topics manager - shut down after this
+	// manager - routes them on its way out. Shut down here, the subscriber would drop them
+	s.Offline(false)
 }
 
 func (m *Manager) sessionPersistPublish(id string, p *mqttp.Publish) {
